@@ -13,10 +13,13 @@ REGISTRY = {
     'C05': ['contracts.c05', ('contracts.gates', only('compare_asm_block_asm_format'))],
     'C08': ['contracts.c08', ('contracts.gates', only('optimize_asm_block_asm_format(gate)', 'optimize_asm_contract(gate)',
                                                       'optimize_isolated_asm_block(gate)'))],
+    'C09': ['contracts.c09', ('contracts.gates', only('optimize_asm_contract(gate)')), ('contracts.c14', only('rebuild_optimized_asm_block'))],
     'C10': [('contracts.gates', only('fault-containment', 'compare_asm_block_asm_format', 'optimize_asm_block_asm_format(gate)')),
             'contracts.c10'],
     'C11': [('contracts.gates', only('optimize_asm_from_log', 'optimize_asm_block_asm_format(gate)', 'compare_asm_block_asm_format')),
             'contracts.c11'],
+    'C14': ['contracts.c14'],
+    'C15': ['contracts.c15'],
     'C17': ['contracts.c17'],
     'C18': ['contracts.c18'],
 }
